@@ -282,7 +282,7 @@ class Durable:
 
 class Instance:
     """A real StateEngine + TaskDispatcher + EventDispatcher started over the simulated broker."""
-    def __init__(self, durable, instance_id="i1", queue_type="classic", ttl=500, retention_ms=1000):
+    def __init__(self, durable, instance_id="i1", queue_type="classic", ttl=500, retention_ms=5000):
         from asl_workflow_engine import state_engine as se, task_dispatcher as td, event_dispatcher as edm
         stubs.install_env(se, td, edm)
         stubs.install_fast_json(se, td, edm)
